@@ -102,7 +102,7 @@ class CallsMixin(ExecBase):
             return self.call_lambda(callee, args, kwargs, st, node)
         if isinstance(callee, Val):
             name = ast.unparse(node.func) if node is not None else "value"
-            return self.opaque_call(name, args, kwargs, st, node, recv=callee)
+            return self.opaque_call(name, args, kwargs, st, node)
         self.oos(f"call of {callee!r}", node)
 
     def call_lambda(self, lam: Lam, args, kwargs, st, node):
@@ -431,8 +431,9 @@ class CallsMixin(ExecBase):
         kvals = {k: self.as_val(v, st, node) for k, v in kwargs.items()}
         fo = self.opts.get("functional_opaque", ())
         if fo and (name in fo or short in fo or short.split(".")[-1] in fo):
-            f = z3.Function("call." + short, *([Any] * len(avals)), Any)
-            res = Val("any", f(*[a.any() for a in avals])) if avals else Val("any", z3.Const("call." + short, Any))
+            fargs = ([recv.any()] if isinstance(recv, Val) else []) + [a.any() for a in avals]  # a method's receiver is its first argument
+            f = z3.Function("call." + short, *([Any] * len(fargs)), Any)
+            res = Val("any", f(*fargs)) if fargs else Val("any", z3.Const("call." + short, Any))
         else:
             res = Val("any", fresh("ret_" + short.replace(".", "_"), Any))
         self.assume(st, res.e != ABSENT)  # `absent` is the encoding of a missing dict entry, never a Python value
@@ -674,7 +675,7 @@ class CallsMixin(ExecBase):
                     bound = self.bind_params(fn, [recv] + args, kwargs, st, node, mod)
                     return self.apply_contract(cands[0], bound, st, node, cands[0].qual)
                 if name in c.fields:
-                    return self.opaque_call(f"{c.path or 'obj'}.{name}", args, kwargs, st, node, recv=c.fields[name])
+                    return self.opaque_call(f"{c.path or 'obj'}.{name}", args, kwargs, st, node)  # calling a callable stored in a field
                 return self.opaque_call(f"{c.path or 'obj'}.{name}", args, kwargs, st, node)
             return self.container_method(recv, name, args, kwargs, st, node)
         if isinstance(recv, ModuleRef):
